@@ -42,7 +42,43 @@ def case_coq(t):
     return "(%s, %s, (%s : list obs))" % (ps, es, os_)
 
 
+def replay(ck):
+    """./check C14 --replay <file>: re-run the trace of a replay file on the implementation and on the model."""
+    obj = json.load(open(ck.replay))
+    tr = obj.get("trace") or obj.get("detail", {}).get("trace") or obj
+    ck.coq_build(["C14/Corr.vo", "C14/XCorr.vo"])
+    binp = ck.go_build("./cmd/c14", "c14")
+    if not binp:
+        return
+    if "ptnum" in tr:
+        p = os.path.join(ck.work, "replay_in.json")
+        json.dump({k: tr[k] for k in ("policies", "ptnum", "events")}, open(p, "w"))
+        rc, out = ck.run([binp, "ixreplay", p])
+        ts = [json.loads(l) for l in out.splitlines() if l.startswith('{"mode":"ix"')]
+        if not ts:
+            ck.broken.append("replay failed: %s" % out[-400:])
+            return
+        t = ts[0]
+        rc2, o = ck.coq_eval("replay", xcases.xfile([t]))
+        v = xcases.parse_verdicts(o) if rc2 == 0 else None
+        print("REPLAY oracle failures on the implementation:", json.dumps(t["oracle"], indent=1))
+        print("REPLAY model variants (0 = agrees; k = first disagreeing event + 1) as-is/as-is, as-is/prune-repaired, "
+              "index-repaired/as-is, both repaired:", v)
+        for f in t["oracle"]:
+            fid = next((name for name, sig in SIGS if sig(f)), None)
+            if fid and ck.match_finding(fid):
+                ck.known_finding(fid, f["msg"])
+            else:
+                ck.violation({"kind": "direct-oracle", "mode": "ix", "what": f, "trace": tr})
+        if v and all(x != 0 for x in v[0]) and not t["oracle"]:
+            ck.broken.append("replayed trace: no model variant agrees with the implementation")
+    else:
+        print("REPLAY: only extended (ix) traces can be replayed; write-admission and node traces depend on the run's clock/seed")
+
+
 def main(ck):
+    if getattr(ck, "replay", None):
+        return replay(ck)
     ck.assumptions += [
         "Go time.Time.Add/Before on the generated instants behave as unbounded integer arithmetic (no wrap in range)",
         "the clock is controlled by patching time.Now (gomonkey) inside the harness process; the retention code under "
@@ -148,11 +184,19 @@ VARIANTS = ["index-choice as-is / prune as-is", "index-choice as-is / prune repa
 
 def run_ix(ck, binp, coq_ok):
     n = 320 if ck.tier == "quick" else 6000
+    # the kept witnesses first (corpus/C14), then the generated stream
+    corpus = os.path.join(ck.verif, "corpus", "C14", "ix_witness.json")
+    rc0, out0 = ck.run([binp, "ixreplay", corpus], timeout=600)
+    ctraces = [json.loads(l) for l in out0.splitlines() if l.startswith('{"mode":"ix"')]
+    if rc0 != 0 or len(ctraces) != len(json.load(open(corpus))):
+        ck.broken.append("harness c14 ixreplay of the corpus failed rc=%d: %s" % (rc0, out0[-500:]))
+        return
     rc, out = ck.run([binp, "ix", str(n)], timeout=2400)
     traces = [json.loads(l) for l in out.splitlines() if l.startswith('{"mode":"ix"')]
     if rc != 0 or len(traces) != n:
         ck.broken.append("harness c14 ix failed rc=%d traces=%d: %s" % (rc, len(traces), out[-500:]))
         return
+    traces = ctraces + traces
     shard = 20
     files = [("xcases%d" % (i // shard), xcases.xfile(traces[i:i + shard])) for i in range(0, len(traces), shard)]
     res = ck.coq_eval_many(files) if coq_ok else []
